@@ -268,6 +268,25 @@ class Tr:
         self.members = members              # name -> int
         self.flavor_names = flavor_names    # list of names
         self.env = {}                       # local python variable -> Coq term (on `ctx`)
+        self.bad = None                     # numeric mask of BlockContext._missing_
+
+    def const(self, e, item):
+        """numeric value of a closed flag expression (members and `|` only)"""
+        if self.flag(e, item) is not None:
+            return self.members[e.attr]
+        if isinstance(e, ast.BinOp) and isinstance(e.op, ast.BitOr):
+            return self.const(e.left, item) | self.const(e.right, item)
+        raise CannotTranslate(item, 'operand of ~ is not a closed flag expression: %s' % _src(e))
+
+    def inverted(self, e, item, var):
+        """`x & ~E`: E must be closed, and ~E must be constructible: enum.Flag.__invert__ builds
+        BlockContext(~value), which BlockContext._missing_ refuses when (bad & ~value) == bad."""
+        v = self.const(e, item)
+        if self.bad is None:
+            raise CannotTranslate(item, '_missing_ mask unknown')
+        if (self.bad & ~v) == self.bad:
+            raise CannotTranslate(item, '~(%s) raises ValueError in BlockContext._missing_' % _src(e))
+        return self.ctx(e, item, var)
 
     def flag(self, e, item):
         if (isinstance(e, ast.Attribute) and isinstance(e.value, ast.Name)
@@ -296,10 +315,10 @@ class Tr:
                 r_inv = isinstance(e.right, ast.UnaryOp) and isinstance(e.right.op, ast.Invert)
                 if r_inv and not l_inv:
                     return '(N.ldiff %s %s)' % (self.ctx(e.left, item, var),
-                                                self.ctx(e.right.operand, item, var))
+                                                self.inverted(e.right.operand, item, var))
                 if l_inv and not r_inv:
                     return '(N.ldiff %s %s)' % (self.ctx(e.right, item, var),
-                                                self.ctx(e.left.operand, item, var))
+                                                self.inverted(e.left.operand, item, var))
                 if not l_inv and not r_inv:
                     return '(N.land %s %s)' % (self.ctx(e.left, item, var),
                                                self.ctx(e.right, item, var))
@@ -420,7 +439,13 @@ def read_missing(fn, tr):
         if isinstance(e, ast.BinOp) and isinstance(e.op, ast.BitOr):
             return '(N.lor %s %s)' % (val(e.left), val(e.right))
         raise CannotTranslate(item, 'bad-mask not understood: %s' % _src(e))
-    return val(b['bad'])
+
+    def num(e):
+        if isinstance(e, ast.BinOp):
+            return num(e.left) | num(e.right)
+        return tr.members[e.value.attr]
+    text = val(b['bad'])
+    return text, num(b['bad'])
 
 
 def read_flavors_property(fn, tr):
@@ -597,7 +622,7 @@ def generate(repo_root=REPO):
     members, order, methods = read_block_context(cls, None)
     tr = Tr(members, flavor_names)
     flavors_body = read_flavors_property(methods['flavors'], tr)
-    bad_mask = read_missing(methods['_missing_'], tr)
+    bad_mask, tr.bad = read_missing(methods['_missing_'], tr)
 
     defs = []   # (name, params, type, body, comment)
 
